@@ -399,6 +399,19 @@ pub fn check(id: &str, tier: &str) -> i32 {
         }
     }
     println!("simharness: property={} engine={} tier={} VERIF_SEED={} workers={} runs<={} ", e.property, e.name, tier, seed, n, total);
+    // scratch directories of workers that were killed (their pid no longer exists)
+    if let Ok(rd) = std::fs::read_dir(scratch_base()) {
+        for ent in rd.flatten() {
+            let name = ent.file_name().to_string_lossy().into_owned();
+            if let Some(rest) = name.strip_prefix("avra-verif-") {
+                if let Some(pid) = rest.rsplit('-').next().and_then(|p| p.parse::<u32>().ok()) {
+                    if !std::path::Path::new(&format!("/proc/{}", pid)).exists() {
+                        let _ = std::fs::remove_dir_all(ent.path());
+                    }
+                }
+            }
+        }
+    }
     let t0 = now_secs();
     let mut harness_errors: Vec<String> = vec![];
 
